@@ -126,5 +126,21 @@ def replay_file(path):
             return 1
         print("replay: counterexample no longer reproduces")
         return 0
+    if doc["mode"] == "native-eval":
+        from . import smt
+        return smt.replay_native_eval(doc, path)
+    if doc["mode"] == "native-scenario":
+        from . import smt_props
+        scratch = core.Scratch([])
+        try:
+            out = smt_props.native_requeue_chain(scratch)
+            print(json.dumps(out, indent=1, default=str)[:1500])
+            if out["reproduced"]:
+                print("VIOLATION property=%s replay=%s" % (pid, path))
+                return 1
+            print("replay: counterexample no longer reproduces")
+            return 0
+        finally:
+            scratch.cleanup()
     from . import scenario
     return scenario.replay_file(doc, path)
